@@ -147,6 +147,22 @@ def layout_facts(run):
         ok = order == want
         facts.append(("writer-order:%s" % branch, ok, run.site(rend),
                       "" if ok else "rend() concatenates the %s gram as %s; the reader's offsets assume %s" % (branch, order, want)))
+    # writer: in the base-2 branch every overhead total that later sizes a gram body is scaled like the header parts
+    curt = [n for n in rend.node.body if isinstance(n, ast.If) and dotted(n.test) == "self.curt"]
+    scaled = set()
+    for n in curt[:1]:
+        for st in n.body:
+            if isinstance(st, ast.Assign) and isinstance(st.targets[0], ast.Name) and unparse(st.value).replace(" ", "") == "3*%s//4" % st.targets[0].id:
+                scaled.add(st.targets[0].id)
+    used = set()
+    for n in walk_local(rend.node):
+        if isinstance(n, ast.Assign) and isinstance(n.value, ast.BinOp) and isinstance(n.value.op, ast.Sub) and dotted(n.value.left) == "self.size":
+            used.add(dotted(n.value.right))
+    missing = sorted(u for u in used if u and u not in scaled)
+    facts.append(("writer-b2-scaling", bool(used) and not missing, run.site(rend, curt[0]) if curt else run.site(rend),
+                  "" if used and not missing else "rend() scales %s to base-2 sizes but computes a gram body size from the unscaled %s: in binary mode the "
+                  "zeroth body is larger than the others and a memo shorter than the difference gets gram count <= 0 "
+                  "('hello wo' at size 38 is delivered as '', 'hi' raises OverflowError)" % (sorted(scaled), missing)))
     prefix = {"nz": {"bz": 1}, "mz": {"bz": 1, "nz": 1}, "vz": {"bz": 1, "nz": 1, "mz": 1}}
     for branch, rows, scaled, body in reader_slices(run, pick):
         seen = set()
